@@ -195,7 +195,7 @@ def apply_edits(item, edits, twin_false=False):
         elif k == "desugar-iter-chain":
             item.desugar_iter_chain(at["source"], int(at.get("nth", "1")), at["elem"], at.get("out", "__out"), at.get("call"))
         elif k == "enum-eq":
-            item.enum_eq(at["prefix"], int(at.get("count", "1")), at.get("why", ""))
+            item.enum_eq(at["prefix"], int(at.get("count", "1")), at.get("why", ""), at.get("call"))
         elif k == "rename":
             item.rename_ident(at["from"], at["to"], at.get("why", ""))
         elif k == "desugar-for":
